@@ -652,6 +652,11 @@ def ite(c, a, b):
         return c
     if isinstance(a, Const) and isinstance(b, Const) and a.v is False and b.v is True:
         return not_(c)
+    # boolean alternatives: a conditional whose one arm is a truth constant is a conjunction / disjunction
+    if isinstance(b, Const) and b.v is False and _boolish(a):
+        return and_(c, a)
+    if isinstance(a, Const) and a.v is False and _boolish(b):
+        return and_(not_(c), b)
     return Ite(c, a, b)
 
 
